@@ -108,7 +108,7 @@ def main():
             na.append({"property_id": pid, "reason": "not claimed yet: check under construction (see DESIGN.md section 5); no verdict is given for it"})
     m = {
         "version": 1,
-        "setup_cmd": "cd /verif/sim && CARGO_NET_OFFLINE=true cargo build --release --offline && ./target/release/wsim selftest",
+        "setup_cmd": "./bin/setup",
         "hooks": {
             "guard": "walleye_verif",
             "enable": "cfg flag --cfg walleye_verif, emitted by /verif/sim/build.rs; the harness crate /verif/sim mounts /repo/src/*.rs with #[path], so every check compiles /repo's current working tree with the hooks on",
